@@ -957,6 +957,57 @@ impl<'a, 'b> FnCtx<'a, 'b> {
                 }
                 _ => self.emit(I::Nop),
             }
+        } else if choice < 91 && self.c.cfg.multi_value && rng.chance(1, 2) {
+            // a construct that takes parameters and leaves nothing: block, loop or if of a type
+            // (t…) -> ()
+            let cands: Vec<Vec<VT>> = self.c.types.iter().filter(|(p, r)| !p.is_empty() && r.is_empty() && p.iter().all(|t| matches!(t, VT::I32 | VT::I64 | VT::F32 | VT::F64))).map(|(p, _)| p.clone()).collect();
+            if cands.is_empty() {
+                self.emit(I::Nop);
+            } else {
+                let params = rng.pick(&cands).clone();
+                let bt = self.block_type_for(&params, &[]).unwrap();
+                for t in &params {
+                    self.expr(rng, *t, d);
+                }
+                match rng.below(3) {
+                    0 => {
+                        self.emit(I::Block(bt));
+                        self.frames.push(Frame { label_tys: vec![] });
+                        for _ in &params {
+                            self.emit(I::Drop);
+                        }
+                        self.stmts(rng, d.min(1));
+                        self.frames.pop();
+                        self.emit(I::End);
+                    }
+                    1 => {
+                        self.emit(I::Loop(bt));
+                        self.frames.push(Frame { label_tys: params.clone() });
+                        for _ in &params {
+                            self.emit(I::Drop);
+                        }
+                        self.frames.pop();
+                        self.emit(I::End);
+                    }
+                    _ => {
+                        self.expr(rng, VT::I32, d);
+                        self.emit(I::If(bt));
+                        self.frames.push(Frame { label_tys: vec![] });
+                        for _ in &params {
+                            self.emit(I::Drop);
+                        }
+                        if rng.chance(2, 3) {
+                            self.emit(I::Else);
+                            for _ in &params {
+                                self.emit(I::Drop);
+                            }
+                            self.stmts(rng, d.min(1));
+                        }
+                        self.frames.pop();
+                        self.emit(I::End);
+                    }
+                }
+            }
         } else if choice < 91 && self.c.cfg.multi_value {
             // multi-value block with a parameter: (i32) -> (i32)
             let bt = self.block_type_for(&[VT::I32], &[VT::I32]);
@@ -1086,6 +1137,11 @@ pub fn gen_module(rng: &mut Rng, cfg: &GenCfg) -> Generated {
     }
     if cfg.multi_value {
         types.push((vec![VT::I32], vec![VT::I32]));
+        // signatures for constructs that take parameters and leave nothing
+        types.push((vec![*rng.pick(&[VT::I32, VT::I64, VT::F64])], vec![]));
+        if rng.chance(1, 2) {
+            types.push((vec![VT::I64, VT::I32], vec![]));
+        }
     }
     // ---- imports
     let mut imports = ImportSection::new();
@@ -1543,6 +1599,12 @@ pub fn gen_module(rng: &mut Rng, cfg: &GenCfg) -> Generated {
                     nm.append(l, &format!("l{}_{}", l, rand_name(rng)));
                     anyn = true;
                 }
+            }
+            // a stale entry, as some toolchains leave them: a name for a local the function does not
+            // have (also when it has no locals at all); custom sections never affect validity
+            if rng.chance(1, 6) {
+                nm.append(total as u32 + rng.below(3) as u32, &format!("stale_{}", rand_name(rng)));
+                anyn = true;
             }
             if anyn && rng.chance(2, 3) {
                 im.append((n_imported_funcs + k) as u32, &nm);
